@@ -694,6 +694,24 @@ func c13Step[T number](r *c13Runner, m map[string]*c13Prov[T], bits int, t []str
 		}
 		r.stats.Inc("path.non-duplex-operand")
 		return mut(p, func() { c13Binop(p.d, t[1], c13NonDuplex[T]()) }), true
+	case len(t) == 3 && t[0] == "viewop":
+		// the operand is a thread-safe VIEW of the receiver's own set (cardinality.ThreadSafeDuplex(receiver)): a different
+		// implementation over the same storage, so the receiver changes while the operand is being read (seed C13-r6-1).
+		// Plain receivers only: a wrapper receiver would wait for its own mutex.
+		p := get(t[2])
+		if p == nil {
+			return "", false
+		}
+		if !c13IsOp(t[1]) || p.wrapped {
+			return "bad-op", true
+		}
+		r.stats.Inc("operand.view-of-receiver." + t[1])
+		view := cardinality.ThreadSafeDuplex(p.d)
+		if !c13Call(func() { c13Binop(p.d, t[1], cardinality.Provider[T](view)) }) {
+			r.stats.Inc("deadlock." + t[1])
+			return "deadlock", true
+		}
+		return "ok " + c13Obs(p), true
 	case len(t) == 3 && c13IsOp(t[0]):
 		p, q := get(t[1]), get(t[2])
 		if p == nil {
@@ -1724,6 +1742,23 @@ func (c13Suite) genRun(g *c13Gen, tier string) {
 // aftermath of the native in-place Xor of the roaring library (not operand-pure). Judged by the monitor only.
 func (c13Suite) genAlias(g *c13Gen, tier string) {
 	r := g.rng
+	// operand = thread-safe view of the receiver itself, every operation, both widths, across container boundaries
+	for _, rk := range []string{"b32", "b64"} {
+		for _, op := range c13Ops {
+			g.begin(fmt.Sprintf("view-of-receiver %s %s", op, rk))
+			g.line("new r %s", rk)
+			g.line("add r 1 2 3 65535 65536 65537 131072")
+			if rk == "b64" {
+				g.line("add r %d %d", uint64(1)<<32, uint64(1)<<40)
+			}
+			g.line("addrange r 200000 %d 1", 300+r.Intn(5000))
+			g.line("viewop %s r", op)
+			g.line("slice r")
+			g.line("add r 7")
+			g.line("viewop %s r", op)
+			g.stats.Inc("view_of_receiver_cases")
+		}
+	}
 	n := 20
 	if tier == "thorough" {
 		n = 400
